@@ -17,8 +17,8 @@
       ForEach/Search decode path.Base(key) and path.Base(path.Dir(key)).
     Byte strings are [list ascii] (8 booleans per byte: every value is a byte).
     No proofs in this file. *)
-From Coq Require Import List Bool NArith Ascii.
-From Coq Require String.
+From Coq Require Import String Ascii.
+From Coq Require Import List Bool NArith.
 From V Require Import lib.Verdict.
 Import ListNotations.
 
@@ -43,7 +43,7 @@ Definition sx_val (s : sextet) : nat :=
   (if b2 then 4 else 0) + (if b1 then 2 else 0) + (if b0 then 1 else 0).
 
 Definition alphabet : str :=
-  String.list_ascii_of_string "ABCDEFGHIJKLMNOPQRSTUVWXYZabcdefghijklmnopqrstuvwxyz0123456789-_"%string.
+  list_ascii_of_string "ABCDEFGHIJKLMNOPQRSTUVWXYZabcdefghijklmnopqrstuvwxyz0123456789-_"%string.
 
 Definition char_of_sx (s : sextet) : ascii := nth (sx_val s) alphabet "A"%char.
 
